@@ -2,7 +2,7 @@
 # apply every seeded change in turn (in a scratch worktree, /repo is not touched) and run the check of its property (quick tier)
 cd /verif
 for d in seeded/*/; do
-  sd=$(basename $d); id=${sd%b}
+  sd=$(basename $d); id=${sd%b}; id=${id%c}
   if [ -n "$1" ] && ! echo " $* " | grep -q " $sd "; then continue; fi
   echo "== $sd"
   tools/try_seed_scratch.sh /verif/seeded/$sd/patch.diff $id quick 2>&1 | cut -c1-300 | head -8
